@@ -139,8 +139,8 @@ def main(pid, argv):
     if not ck.replay or json.load(open(ck.replay))["failing"]["kind"] != "wire-ops":
         for mode, frame in (("upgrade-service", b'{"method":"x.y.Up","upgrade":true}'), ("upgrade-client", b'{"parameters":{}}')):
             var = "split" if mode == "upgrade-service" else "gc"
-            lines = ["%s %s %d" % (frame.hex(), p.hex(), rs) for p, rs in e2e] + ["%s %s %d %s" % (frame.hex(), p.hex(), rs, var) for p, rs in e2e[:: 3]]
-            e2e_all = e2e + e2e[:: 3]
+            lines = ["%s %s %d" % (frame.hex(), p.hex(), rs) for p, rs in e2e] + ["%s %s %d %s" % (frame.hex(), p.hex(), rs, var) for p, rs in e2e * 3]
+            e2e_all = e2e + e2e * 3
             rc, out, err = V.run_lines([binp, mode], lines, timeout=900)
             for (p, rs), o, l in zip(e2e_all, out, lines):
                 ck.evaluations += 1
